@@ -758,15 +758,15 @@ def gen_hyph():
     for i, (lang, t) in enumerate(sorted(texts.items()), start=1):
         css = page_css(200, 150, 10) + "html, body { margin: 0; font-family: ahem; font-size: 8px; line-height: 10px }\np { margin: 0 0 10px 0; hyphens: auto; width: 150px }\n"
         body = '<p lang="%s">%s</p><p lang="%s">%s</p>' % (lang, t, lang, " ".join(reversed(t.split())))
-        scenario("hyph-%02d" % i, "hyph", doc(css, body), expect=dict(page_w=200, page_h=150, margin=True, group="hyph"))
+        scenario("hyph-%02d" % i, "hyph", doc(css, body), expect=dict(page_w=200, page_h=150, margin=True, group="hyph"), engines=["pango", "gotext"] if lang == "en" else ["pango"])
     css = page_css(200, 150, 10) + "html, body { margin: 0; font-family: ahem; font-size: 8px; line-height: 10px }\np { margin: 0 0 10px 0; hyphens: auto; width: 150px }\n"
     body = "".join('<p lang="%s">%s</p>' % (l, t) for l, t in sorted(texts.items()))
     scenario("hyph-04", "hyph", doc(css, body), expect=dict(page_w=200, page_h=150, margin=True, group="hyph"))
     # a dictionary with NON-STANDARD hyphenation points (hungarian "vissza" breaks as "visz-sza"): the lookup rewrites
     # the word around the break, from data held in the process-wide dictionary cache
     css = page_css(200, 150, 10) + "html, body { margin: 0; font-family: ahem; font-size: 10px; line-height: 10px }\np { margin: 0 0 10px 0; hyphens: auto; width: 50px }\n"
-    body = '<p lang="hu">visszaemlekezesekkel</p><p lang="hu">asszonnyal visszavonhatatlanul hosszabbitassal</p>'
-    scenario("hyph-05", "hyph", doc(css, body), expect=dict(page_w=200, page_h=150, margin=True, group="hyph"))
+    body = '<p lang="hu">visszaemlekezesekkel</p><p lang="hu">asszonnyal visszavonhatatlanul hosszabbitassal</p><p lang="en">hyphenation</p><p lang="en">aa extraordinary</p><p lang="en">extra&shy;ordinary hyphenation extraordinary&shy;ly long</p>'
+    scenario("hyph-05", "hyph", doc(css, body), expect=dict(page_w=200, page_h=150, margin=True, group="hyph"), engines=["pango", "gotext"])
 
 
 # ------------------------------------------------------------------ family feat-* (reach for rarely visited map-order sites)
@@ -1570,6 +1570,9 @@ def gen_reach():
         items = "".join('<div class="%s">%s</div>' % (c, w) for c, w in zip(cls, W))
         T = words("t", 6)
         scenario("feat-%d" % n, "feat", doc(css, '<div class=g>%s</div>%s' % (items, para(T))), expect=dict(margin=True, page_w=260, page_h=200, line_height=12, sentinels=W + T))
+        # the same grid cut after its 11th item: an automatically placed 'span 2' item meets the last column of the implicit grid
+        items = "".join('<div class="%s">%s</div>' % (c, w) for c, w in list(zip(cls, W))[:11])
+        scenario("feat-%d" % (n + 5), "feat", doc(css, '<div class=g>%s</div>%s' % (items, para(T))), expect=dict(margin=True, page_w=260, page_h=200, line_height=12, sentinels=W[:11] + T))
 
     # link-10: anchors and bookmarks in less common positions: <a name>, percent-encoded fragment, id on an inline
     # box split across lines and a page break, id on display:none (link must be dropped), id + link inside a
